@@ -458,6 +458,11 @@ def run(index: RepoIndex, rep) -> None:
     geo = Geometry(index)
     pipe = Pipeline(index, geo)
     sub = Subgrid(index)
+    rep.rule('C05.R9', 'the environment shows what its observation function computed: '
+             'GridWorld.functional_observation returns the result of the configured '
+             'observation function for the state it was given, unchanged', floor=2)
+    from .wiring import observation_passthrough
+    observation_passthrough(index, rep, 'C05.R9')
     rep.rule('C05.R1', 'frame consistency of slice->rotate for the four headings, symbolic in '
              'area, position and cell; observation shape equals the view shape', floor=9)
     rep.rule('C05.R2', 'Grid.subgrid: the very object under a two-sided in-grid test, Hidden() '
